@@ -97,7 +97,7 @@ def ApiOK (s : St) : Api → Prop
   | .commitRead       => True
 
 /-- an API call made within its contract is a legal run of model micro-steps -/
-theorem api_run (o : Params) (s : St) (a : Api) (hok : ApiOK s a) : Run o s (apiOps s a) := by
+theorem api_run (o : Params) (s : St) (a : Api) (hok : ApiOK s a) : Run o s (apiOps o s a) := by
   cases a <;> simp only [apiOps, ApiOK] at * <;> try (split <;> simp [Run, Enabled, *])
   all_goals simp_all [Run, Enabled, St.free]
 
@@ -137,7 +137,7 @@ theorem wrap_refines (M : Nat) (o : Params) (ho : OrdersOK o) (s : St) (a : Api)
   | prepareWrite n v =>
     have hfm := free_mod hw
     by_cases hfree : s.free < n
-    · have hops : apiOps s (.prepareWrite n v) = [.reloadR v] := by simp [apiOps, hfree]
+    · have hops : apiOps o s (.prepareWrite n v) = [.reloadR v] := by simp [apiOps, hfree]
       have hs' : (absApi o s (.prepareWrite n v)).1 = step o s (.reloadR v) := by
         simp [absApi, hops, run]
       rw [hs'] at hinv'
@@ -152,7 +152,7 @@ theorem wrap_refines (M : Nat) (o : Params) (ho : OrdersOK o) (s : St) (a : Api)
       split
       · simp [Obs.modM]
       · simp [Obs.modM, off_mod hw]
-    · have hops : apiOps s (.prepareWrite n v) = [] := by simp [apiOps, hfree]
+    · have hops : apiOps o s (.prepareWrite n v) = [] := by simp [apiOps, hfree]
       have hc : ¬ ((absM M s).cap - subM M (absM M s).wpos (absM M s).rcache < n) := by
         simp only [absM]; rw [hfm]; exact hfree
       simp only [Api.modM]
@@ -167,7 +167,7 @@ theorem wrap_refines (M : Nat) (o : Params) (ho : OrdersOK o) (s : St) (a : Api)
   | empty v =>
     have hem := empty_mod hw
     by_cases he : s.wcache = s.rpos
-    · have hops : apiOps s (.empty v) = [.loadW v] := by simp [apiOps, he]
+    · have hops : apiOps o s (.empty v) = [.loadW v] := by simp [apiOps, he]
       have hs' : (absApi o s (.empty v)).1 = step o s (.loadW v) := by simp [absApi, hops, run]
       rw [hs'] at hinv'
       have hw' := hinv'.wrapOK M (by simpa [step] using hd) (by simpa [step] using hlt)
@@ -175,13 +175,13 @@ theorem wrap_refines (M : Nat) (o : Params) (ho : OrdersOK o) (s : St) (a : Api)
       simp only [step] at hem'
       simp only [modApi, Api.modM, absM, hem.mpr he, if_true, absApi, hops, run, apiObs, step, Obs.modM]
       simp [hem']
-    · have hops : apiOps s (.empty v) = [] := by simp [apiOps, he]
+    · have hops : apiOps o s (.empty v) = [] := by simp [apiOps, he]
       have hne : ¬ (s.wcache % M = s.rpos % M) := fun hh => he (hem.mp hh)
       simp [modApi, Api.modM, absM, hne, he, absApi, hops, run, apiObs, Obs.modM]
   | prepareRead v =>
     have hem := empty_mod hw
     by_cases he : s.wcache = s.rpos
-    · have hops : apiOps s (.prepareRead v) = [.loadW v] := by simp [apiOps, he]
+    · have hops : apiOps o s (.prepareRead v) = [.loadW v] := by simp [apiOps, he]
       have hs' : (absApi o s (.prepareRead v)).1 = step o s (.loadW v) := by simp [absApi, hops, run]
       rw [hs'] at hinv'
       have hw' := hinv'.wrapOK M (by simpa [step] using hd) (by simpa [step] using hlt)
@@ -193,7 +193,7 @@ theorem wrap_refines (M : Nat) (o : Params) (ho : OrdersOK o) (s : St) (a : Api)
         simp [hv, Obs.modM]
       · have : ¬ (v % M = s.rpos % M) := fun hh => hv (hem'.mp hh)
         simp [hv, this, Obs.modM, off_mod hw]
-    · have hops : apiOps s (.prepareRead v) = [] := by simp [apiOps, he]
+    · have hops : apiOps o s (.prepareRead v) = [] := by simp [apiOps, he]
       have hne : ¬ (s.wcache % M = s.rpos % M) := fun hh => he (hem.mp hh)
       simp [modApi, Api.modM, absM, hne, he, absApi, hops, run, apiObs, Obs.modM, off_mod hw]
   | finishRead n =>
